@@ -569,6 +569,34 @@ def make_vm_class(node: ast.ClassDef, funcs, env0):
     return type(node.name, (Model,), body)
 
 
+def is_memoiser(dec) -> bool:
+    """``@lru_cache`` / ``@lru_cache(...)`` / ``@cache`` (bare or through ``functools.``)."""
+    d = dec.func if isinstance(dec, ast.Call) else dec
+    return src(d) in ("lru_cache", "functools.lru_cache", "cache", "functools.cache")
+
+
+def _memoised(fn, registry):
+    """Model of functools.lru_cache around an interpreted helper: results are remembered under the call's arguments, compared the way a
+    dict compares keys (== and hash - so 0.0 and -0.0, 1 and 1.0 and True are one key; distinct NaN objects are distinct keys).
+    Eviction (maxsize) is not modelled: a remembered answer stays remembered."""
+    cache = {}
+    registry.append(cache)
+
+    def _interp(*args, **kw):
+        key = (args, tuple(sorted(kw.items())))
+        try:
+            hit = key in cache
+        except TypeError as ex:
+            raise Raised(ex)
+        if hit:
+            return cache[key]
+        v = fn(*args, **kw)
+        cache[key] = v
+        return v
+    _interp.method_name = getattr(fn, "method_name", None)
+    return _interp
+
+
 class FollowModule(dict):
     """``funcs`` mapping that, besides the explicit models it is created with, resolves any other module-level function of
     ``mod`` by interpreting its AST (``interp``): the evaluator follows calls to sibling helpers instead of refusing them."""
@@ -578,12 +606,18 @@ class FollowModule(dict):
         self._mod = mod
         self._env0 = env0 if env0 is not None else {}
         self._busy = set()
+        self._memo_caches = []
+
+    def reset_caches(self):
+        """Forget what the memoised (``@lru_cache`` / ``@cache``) helpers have remembered - the state of a fresh process."""
+        for c in self._memo_caches:
+            c.clear()
 
     def _func(self, name):
         if not isinstance(name, str) or "." in name:
             return None
         for st in self._mod.tree.body:
-            if isinstance(st, ast.FunctionDef) and st.name == name and not st.decorator_list:
+            if isinstance(st, ast.FunctionDef) and st.name == name and (not st.decorator_list or all(is_memoiser(d) for d in st.decorator_list)):
                 return st
         return None
 
@@ -627,6 +661,8 @@ class FollowModule(dict):
             dict.__setitem__(self, name, val)
             return val
         fn = interp(f, self, self._env0)
+        if f.decorator_list:
+            fn = _memoised(fn, self._memo_caches)
         dict.__setitem__(self, name, fn)
         return fn
 
